@@ -1394,6 +1394,11 @@ func (s *Stage) buildCache(from time.Time) {
 			first = t
 		}
 		path := filepath.Join(s.rootDir, name)
+		if existing, ok := s.cache[path]; ok && existing.state == stateLogged && !t.Before(existing.logged) {
+			// An earlier log record of the same name: the version logged later
+			// is the one a retransmission has to be compared with
+			delete(s.cache, path)
+		}
 		if _, ok := s.cache[path]; ok {
 			// Skip it if the file is already in the cache
 			return false
